@@ -24,7 +24,9 @@ RULE = ("Hypothesis draws DAQmx files: 1-3 segments, 1-3 acquisition buffers of 
         "scaler with non-zero offset."
         ' Segments with metadata but without a new object list re-declare channels inside the same buffer geometry; '
         'the chunk streams of all channels are also advanced in lock step with window reads of other channels in '
-        'between.')
+        'between.'
+        ' Non-final DAQmx segments may end in an incomplete chunk (row model); raw_data of single-scaler raw channels '
+        'is checked.')
 ASSUMPTIONS = [
     "independent encoder's DAQmx index layout (scaler records of 20 bytes / 17 bytes for digital lines, width vector)",
     "channels whose scalers sit in buffers of different lengths, timestamp scalers and multi-byte digital-line types are "
